@@ -3,18 +3,19 @@
 /tmp/seed/out/<id>/ and the seedcheck logs in /verif/out/seed_<id>*.log."""
 import glob, json, os, re, shutil, sys
 props = {json.loads(l)['id']: json.loads(l) for l in open('/verif/properties.jsonl')}
-for d in sorted(glob.glob('/tmp/seed/out/C*')):
+ROUNDS = [('/tmp/seed/out', '', 'seed_'), ('/tmp/seed2/out', '-b', 'seed2_')]
+for d, suffix, logtag in [(d, sfx, tag) for root, sfx, tag in ROUNDS for d in sorted(glob.glob(root + '/C*'))]:
     pid = os.path.basename(d)
     if not os.path.exists(os.path.join(d, 'patch.diff')):
         continue
-    out = os.path.join('/verif/seeded', pid)
+    out = os.path.join('/verif/seeded', pid + suffix)
     os.makedirs(out, exist_ok=True)
     for f in ('patch.diff', 'demo.py', 'notes.md'):
         if os.path.exists(os.path.join(d, f)):
             shutil.copy(os.path.join(d, f), os.path.join(out, f))
     runs = []
     confirmed = {}
-    for log in sorted(glob.glob('/verif/out/seed_%s*.log' % pid)):
+    for log in sorted(glob.glob('/verif/out/%s%s.*log' % (logtag, pid)), key=os.path.getmtime):
         txt = open(log).read()
         m = re.search(r'\n(\{\n "seed".*)', txt, re.S)
         if not m:
@@ -37,4 +38,4 @@ for d in sorted(glob.glob('/tmp/seed/out/C*')):
         'check_runs': runs,
     }
     json.dump(meta, open(os.path.join(out, 'meta.json'), 'w'), indent=1)
-    print(pid, confirmed.get('demo_patched_rc'), [(r['check'], r['detected']) for r in runs])
+    print(pid + suffix, confirmed.get('demo_patched_rc'), [(r['check'], r['detected']) for r in runs])
